@@ -3,5 +3,5 @@
 TIER=${1:-quick}
 cd "$(dirname "$0")/.."
 for p in $(python3 -c "import json; print(' '.join(c['property_id'] for c in json.load(open('MANIFEST.json'))['checks']))"); do
-  ./check $p --tier $TIER 2>&1 | grep -E "^(VIOLATION|KNOWN-FINDING|OK|FAIL)"
+  ./check $p --tier $TIER 2>&1 | grep -E "^(VIOLATION|KNOWN-FINDING|NOTE|OK|FAIL)"
 done
